@@ -47,7 +47,7 @@ type GuardClass struct {
 	// the caller identity).
 	ValueOK  func(v ssa.Value) bool
 	wrappers map[*ssa.Function]wrapInfo
-	cache     map[*ssa.Function]EdgeSet
+	cache    map[*ssa.Function]EdgeSet
 }
 
 type wrapInfo struct {
@@ -114,6 +114,33 @@ func (g *GuardClass) ComputeWrappers(cands []*ssa.Function) {
 			}
 			cut := CutOf(es)
 			rs := Reach([]Point{EntryOf(fn)}, nil, cut)
+			// "nil means allowed" helpers that answer with a response: every non-nil result is a failure
+			// response and the nil result lies behind the guard (e.g. requireInterchainCaller())
+			if conv == ConvRespOk {
+				hasNil, nilGuarded, allFail := false, true, true
+				for _, r := range Returns(fn) {
+					if len(r.Results) <= idx {
+						continue
+					}
+					for _, o := range RetOrigins(r.Results[idx]) {
+						if IsNilConst(o.V) {
+							hasNil = true
+							if OriginReachable(rs, cut, r, o) {
+								nilGuarded = false
+							}
+							continue
+						}
+						if OriginMayBeSuccess(fn, r, o.V, conv) {
+							allFail = false
+						}
+					}
+				}
+				if hasNil && nilGuarded && allFail {
+					g.wrappers[fn] = wrapInfo{ConvErrNil, idx}
+					changed = true
+					continue
+				}
+			}
 			isWrapper := true
 			nSucc := 0
 		rets:
